@@ -2,6 +2,24 @@
 from .common import totality, loops
 from .shared_tables import BUFFER, HUFFMAN_DECOMPRESS, HUFFMAN_DECOMPRESS_LOOPS
 
+LEVEL = "other"
+EXPLANATION = (
+    "Static totality argument over the type-checked MIR of the current tree.  R1: every construct that can "
+    "panic (bounds/overflow/div asserts, panic!/assert!/unreachable!, unwrap/expect, split_at, range indexing, "
+    "asserting casts, exported preconditions of callees) in every body reachable from Packet::read, "
+    "Packet::is_initial and ChunksIter (0.6 and 0.7) must follow from the branch conditions dominating it "
+    "(integer linear reasoner over slice lengths, constants and parameters, with memory epochs) or be a reviewed "
+    "table line.  R2: every CFG cycle in those bodies is driven by a finite std iterator or is a reviewed line.  "
+    "Slice provenance is guaranteed by safe Rust; the reachable unsafe is the buffer/huffman set audited under "
+    "C19/C07.  Not decided: re-written packets read back equal (value level)."
+)
+ASSUMPTIONS = [
+    "std / arrayvec / zerocopy functions not listed in the precondition table of sa/panics.py do not panic",
+    "caller-supplied Warn / Callback implementations do not panic",
+    "the reviewed table lines (sa/rules/C06.py, shared_tables.py) were confirmed by reading the code",
+    "allocation failure and stack exhaustion are out of scope",
+]
+
 ENTRIES = [
     "libtw2_net::protocol::Packet::read", "libtw2_net::protocol::Packet::is_initial",
     "libtw2_net::protocol::ChunksIter::new", "libtw2_net::protocol::ChunksIter::next_warn",
@@ -48,6 +66,5 @@ REVIEWED_LOOPS = dict(HUFFMAN_DECOMPRESS_LOOPS)
 
 
 def run(ctx, rep):
-    rep.level = "other"
     R, pa = totality(ctx, rep, "R1-no-panic", ENTRIES, REVIEWED)
     loops(ctx, rep, "R2-loops", R, REVIEWED_LOOPS)
